@@ -1,9 +1,9 @@
-"""C02 - float -> posit: guard cells on the float bit pattern (R2)."""
+"""C02 - float -> posit: guard cells on the float bit pattern (R2) + rounding cells for every normal float (R10)."""
 from fractions import Fraction
 import spec as S
 from props.common import *
 
-LEVEL = 'other'
+LEVEL = 'proof'
 
 
 def f2p_spec(pty, fmt):
@@ -36,6 +36,45 @@ def run(ctx):
                            f2p_spec(pty, fmt), pty.bits)
             tot += decided(st)
     ctx.require('C02 decided cells', tot, 100)
-    ctx.undecided['general_path'] = 'bitround + max_k correction on the general path; from_f32(x) == from_f64(x as f64)'
-    return LEVEL, ('+-0, NaN/inf, saturation thresholds (one ulp either side), +-1 for six conversions decided for every float bit pattern of each '
-                   'control-determinate cell.')
+    # R10: every normal float, per rounding cell (sign x exponent x rounding situation; other significand bits symbolic)
+    import rules_rounding
+    ctx.rules.append('R10 rounding cells: symbolic bit-vector result == correctly rounded encoding, per (sign, exponent, rounding case)')
+    thorough = ctx.tier == 'thorough'
+    cells = proved = 0
+    sampled = []
+    for pty in PTYS:
+        for fname, fmt in (('f32', S.F32), ('f64', S.F64)):
+            path = prog.inherent(pty.tykey, 'from_' + fname)
+            if not path:
+                continue
+            full = thorough or not (fname == 'f64' and pty.bits == 32)
+            if not full:
+                sampled.append('%s::from_%s' % (pty.name, fname))
+            st = rules_rounding.check_float_to_posit(ctx, prog, 'R10', '%s::from_%s' % (pty.name, fname), path, fmt, pty, full)
+            cells += st['cells']
+            proved += st['proved']
+    # the patterns outside the rounding cells: zeros, subnormals, infinities and NaNs must be decided by the guard layer
+    special = 0
+    for pty in PTYS:
+        for fname, fmt in (('f32', S.F32), ('f64', S.F64)):
+            path = prog.inherent(pty.tykey, 'from_' + fname)
+            if not path:
+                continue
+            sgn = 1 << (fmt.bits - 1)
+            top = fmt.emax << fmt.mbits
+            sc = [(0, 0), (1, (1 << fmt.mbits) - 1), (top, top), (top + 1, sgn - 1)]
+            sc += [(lo | sgn, hi | sgn) for lo, hi in sc]
+            st = run_cells(ctx, prog, 'GCR', '%s::from_%s' % (pty.name, fname), path,
+                           lambda cell, fmt=fmt: [float_arg(fmt.bits, cell[0][0], cell[0][1], 0)], [sc], f2p_spec(pty, fmt), pty.bits)
+            special += decided(st)
+    ctx.count('special_pattern_cells_decided', special)
+    ctx.count('special_pattern_cells', 48)
+    complete = (cells == proved and special == 48)
+    if sampled:
+        ctx.notes.append('quick tier: sticky position and carry-run length are sampled (3 / 4 values) for %s; the thorough tier takes all' % ', '.join(sampled))
+    if not complete:
+        ctx.notes.append('not every obligation was discharged in this run (%d/%d rounding cells, %d/48 special cells): the verdict of this run is weaker than a proof' % (proved, cells, special))
+    ctx.undecided['general_path'] = 'nothing for normal floats whose rounding cell was proved; undecided cells are counted above'
+    return (LEVEL if complete else 'other'), ('Every finite non-zero normal f32/f64 is covered by a rounding cell (sign, exponent, rounding situation; remaining significand bits symbolic) on which the '
+                   'returned bit-vector equals the correctly rounded posit encoding; zeros, subnormals, infinities and NaNs are decided by the guard layer on interval cells. '
+                   'Hence from_f32(x) == from_f64(x as f64) (both are the rounding of the value).')
